@@ -8,7 +8,6 @@ import JsonbModel.PathPrint
 
 set_option linter.unusedSimpArgs false
 set_option linter.unusedVariables false
-set_option linter.unnecessarySeqFocus false
 
 namespace Jsonb.TrAgree
 open Jsonb.PathPrint
@@ -42,11 +41,11 @@ theorem intDigits_eq (i : Int) : Fn.intDigits i = intBytes i := by
   · have : i.toNat = i.natAbs := by omega
     simp [h, this, natDigits_eq]
 
-theorem displayNumber_eq (fmt : Nat → Bytes) (n : Num) : Rs.displayNumber fmt (ofNum n) = printNum fmt n := by
+theorem displayNumber_eq (fmt : Nat → Bytes) (n : Num) : Rs.displayNumber fmt (ofNumber n) = printNum fmt n := by
   cases n with
-  | int i => simp [Rs.displayNumber, Rs.numberToNum, ofNum, Fn.numToString, printNum, intDigits_eq]
-  | uint n => simp [Rs.displayNumber, Rs.numberToNum, ofNum, Fn.numToString, printNum, natDigits_eq]
-  | float b => simp [Rs.displayNumber, Rs.numberToNum, ofNum, Fn.numToString, printNum]
+  | int i => simp [Rs.displayNumber, Rs.numberToNum, ofNumber, Fn.numToString, printNum, intDigits_eq]
+  | uint n => simp [Rs.displayNumber, Rs.numberToNum, ofNumber, Fn.numToString, printNum, natDigits_eq]
+  | float b => simp [Rs.displayNumber, Rs.numberToNum, ofNumber, Fn.numToString, printNum]
 
 /-! ## the literal texts of the printers -/
 
@@ -151,15 +150,15 @@ theorem printArrayIndexList_eq (l : List ArrayIndex) : printArrayIndexList l = s
 /-! ## keypath.rs -/
 
 theorem key_path_fmt_agrees (k : KeyPath) (f : Bytes) :
-    Tr.Display.KeyPath.fmt (ofKP k) f = .ok (f ++ printKeyPath k) := by
-  cases k <;> (unfold Tr.Display.KeyPath.fmt ofKP printKeyPath; disp_simp) <;> (try simp)
+    Tr.Display.KeyPath.fmt (ofKeyPath k) f = .ok (f ++ printKeyPath k) := by
+  cases k <;> (unfold Tr.Display.KeyPath.fmt ofKeyPath printKeyPath; disp_simp) <;> (try simp)
 
 /-- **`impl Display for KeyPaths`** (C16) -/
 theorem key_paths_fmt_agrees (l : List KeyPath) (f : Bytes) :
     Tr.Display.KeyPaths.fmt (ofKeyPaths l) f = .ok (f ++ printKeyPaths l) := by
   unfold Tr.Display.KeyPaths.fmt ofKeyPaths printKeyPaths
   disp_simp
-  rw [fold_sepList [44] printKeyPath ofKP _ (fun i x f => by
+  rw [fold_sepList [44] printKeyPath ofKeyPath _ (fun i x f => by
     simp only [key_path_fmt_agrees]
     by_cases hi : i > 0
     · have : ((i : Int) > 0) := by omega
